@@ -58,6 +58,16 @@ type site struct {
 	Snippet string   `json:"snippet"`
 }
 
+// in-memory state that outlives a transaction: struct fields and package-level variables of map / sync.Map type (and
+// package-level variables of any type) that are written inside function bodies
+type cacheSite struct {
+	File   string   `json:"file"`  // where it is declared
+	Owner  string   `json:"owner"` // Type.field or package-level variable
+	Type   string   `json:"type"`
+	Hash   string   `json:"hash"` // over the normalised write sites
+	Writes []string `json:"writes"`
+}
+
 func fatal(f string, a ...interface{}) {
 	fmt.Fprintf(os.Stderr, f+"\n", a...)
 	os.Exit(2)
@@ -88,6 +98,7 @@ func main() {
 	}
 	fset := token.NewFileSet()
 	sites := []site{}
+	caches := map[types.Object]*cacheSite{}
 	typeErrs := []string{}
 	nPkgs := 0
 	sort.Strings(order)
@@ -146,6 +157,11 @@ func main() {
 		for _, af := range files {
 			scanFile(repo, fset, af, info, &sites)
 		}
+		for _, pass := range []int{0, 1} { // declarations of the whole package first, then the writes
+			for _, af := range files {
+				scanCaches(repo, fset, af, info, caches, pass)
+			}
+		}
 	}
 	sort.Slice(sites, func(i, j int) bool {
 		a, b := sites[i], sites[j]
@@ -159,7 +175,23 @@ func main() {
 	})
 	enc := json.NewEncoder(os.Stdout)
 	enc.SetIndent("", " ")
-	enc.Encode(map[string]interface{}{"packages": nPkgs, "sites": sites, "type_errors": typeErrs})
+	cl := []*cacheSite{}
+	for _, c := range caches {
+		if len(c.Writes) == 0 {
+			continue
+		}
+		sort.Strings(c.Writes)
+		h := sha256.Sum256([]byte(strings.Join(c.Writes, "\n")))
+		c.Hash = hex.EncodeToString(h[:6])
+		cl = append(cl, c)
+	}
+	sort.Slice(cl, func(i, j int) bool {
+		if cl[i].File != cl[j].File {
+			return cl[i].File < cl[j].File
+		}
+		return cl[i].Owner < cl[j].Owner
+	})
+	enc.Encode(map[string]interface{}{"packages": nPkgs, "sites": sites, "caches": cl, "type_errors": typeErrs})
 }
 
 func inScope(repo, dir string) bool {
@@ -463,4 +495,152 @@ func classify(fset *token.FileSet, info *types.Info, rs *ast.RangeStmt, rest []a
 		s.Why = append(s.Why, w)
 	}
 	sort.Strings(s.Why)
+}
+
+func isMapLike(t types.Type) bool {
+	for {
+		if p, ok := t.(*types.Pointer); ok {
+			t = p.Elem()
+			continue
+		}
+		break
+	}
+	if _, ok := t.Underlying().(*types.Map); ok {
+		return true
+	}
+	if n, ok := t.(*types.Named); ok && n.Obj().Pkg() != nil && n.Obj().Pkg().Path() == "sync" && n.Obj().Name() == "Map" {
+		return true
+	}
+	return false
+}
+
+// scanCaches records (a) the declarations: struct fields of map / sync.Map type and package-level variables, (b) every
+// statement inside a function body that writes them: assignment to (an element / field of) them, delete(), and the
+// mutating methods of sync.Map.
+func scanCaches(repo string, fset *token.FileSet, af *ast.File, info *types.Info, out map[types.Object]*cacheSite, pass int) {
+	fname, _ := filepath.Rel(repo, fset.Position(af.Pos()).Filename)
+	decl := func(o types.Object, owner string) {
+		if o == nil {
+			return
+		}
+		if _, ok := out[o]; !ok {
+			f, _ := filepath.Rel(repo, fset.Position(o.Pos()).Filename)
+			out[o] = &cacheSite{File: f, Owner: owner, Type: types.TypeString(o.Type(), func(p *types.Package) string { return p.Name() })}
+		}
+	}
+	for _, d := range af.Decls {
+		gd, ok := d.(*ast.GenDecl)
+		if !ok || pass != 0 {
+			continue
+		}
+		for _, sp := range gd.Specs {
+			switch x := sp.(type) {
+			case *ast.TypeSpec:
+				st, ok := x.Type.(*ast.StructType)
+				if !ok {
+					continue
+				}
+				for _, f := range st.Fields.List {
+					for _, nm := range f.Names {
+						o := info.Defs[nm]
+						if o != nil && isMapLike(o.Type()) {
+							decl(o, x.Name.Name+"."+nm.Name)
+						}
+					}
+				}
+			case *ast.ValueSpec:
+				if gd.Tok != token.VAR {
+					continue
+				}
+				for _, nm := range x.Names {
+					if nm.Name == "_" {
+						continue
+					}
+					if o := info.Defs[nm]; o != nil {
+						decl(o, nm.Name)
+					}
+				}
+			}
+		}
+	}
+	// the object (struct field or package-level variable) an lvalue / receiver expression designates
+	var target func(e ast.Expr) types.Object
+	target = func(e ast.Expr) types.Object {
+		switch x := e.(type) {
+		case *ast.Ident:
+			if o, ok := info.Uses[x].(*types.Var); ok && o.Parent() != nil && o.Parent() == o.Pkg().Scope() {
+				return o
+			}
+		case *ast.SelectorExpr:
+			if sel, ok := info.Selections[x]; ok && sel.Kind() == types.FieldVal {
+				if isMapLike(sel.Obj().Type()) {
+					return sel.Obj()
+				}
+				return target(x.X)
+			}
+			if o, ok := info.Uses[x.Sel].(*types.Var); ok && o.Parent() != nil && o.Pkg() != nil && o.Parent() == o.Pkg().Scope() {
+				return o // pkg.Var
+			}
+		case *ast.IndexExpr:
+			return target(x.X)
+		case *ast.StarExpr:
+			return target(x.X)
+		case *ast.ParenExpr:
+			return target(x.X)
+		}
+		return nil
+	}
+	note := func(o types.Object, fn string, n ast.Node) {
+		if o == nil {
+			return
+		}
+		c, ok := out[o]
+		if !ok {
+			// declared in a file not yet visited (or in another package of the scan): create on demand
+			if v, isVar := o.(*types.Var); isVar && (v.IsField() && isMapLike(v.Type()) || !v.IsField()) {
+				f, _ := filepath.Rel(repo, fset.Position(o.Pos()).Filename)
+				if strings.HasPrefix(f, "..") {
+					return
+				}
+				c = &cacheSite{File: f, Owner: o.Name(), Type: types.TypeString(o.Type(), func(p *types.Package) string { return p.Name() })}
+				out[o] = c
+			} else {
+				return
+			}
+		}
+		c.Writes = append(c.Writes, fname+" "+fn+": "+norm(src(fset, n)))
+	}
+	for _, d := range af.Decls {
+		fd, ok := d.(*ast.FuncDecl)
+		if !ok || fd.Body == nil || pass != 1 {
+			continue
+		}
+		name := fd.Name.Name
+		if fd.Recv != nil && len(fd.Recv.List) > 0 {
+			name = strings.TrimPrefix(norm(src(fset, fd.Recv.List[0].Type)), "*") + "." + name
+		}
+		ast.Inspect(fd.Body, func(n ast.Node) bool {
+			switch x := n.(type) {
+			case *ast.AssignStmt:
+				for _, lhs := range x.Lhs {
+					note(target(lhs), name, x)
+				}
+			case *ast.IncDecStmt:
+				note(target(x.X), name, x)
+			case *ast.CallExpr:
+				if id, ok := x.Fun.(*ast.Ident); ok && id.Name == "delete" && len(x.Args) > 0 {
+					note(target(x.Args[0]), name, x)
+				}
+				if se, ok := x.Fun.(*ast.SelectorExpr); ok {
+					switch se.Sel.Name {
+					case "Store", "Delete", "LoadOrStore", "LoadAndDelete", "Swap", "CompareAndSwap", "CompareAndDelete", "Clear":
+						if o := target(se.X); o != nil && isMapLike(o.Type()) {
+							note(o, name, x)
+						}
+					}
+				}
+			}
+			return true
+		})
+	}
 }
